@@ -8,7 +8,7 @@ import numpy as np
 import z3
 
 from harness import common
-from symx import core, patch, lv as klv
+from symx import core, patch, second, lv as klv
 from symx.lv import KFab, KFile, KFS, LV, Region, I, S
 
 LEMMAS = {}
@@ -81,6 +81,9 @@ def prove(ctx, kr, what, claim, timeout_ms=20000):
         kr.queries += 1
         model = s2.model() if r == 'sat' else None
     if r == 'unsat':
+        if not second.maybe_confirm(ctx.solver, [z3.Not(claim)], '%s: %s' % (kr.name, what)):
+            kr.inconclusive.append('second solver (cvc5) finds a model where z3 answers unsat: ' + what)
+            return False
         kr.discharged += 1
         return True
     if r == 'sat':
@@ -1382,15 +1385,90 @@ def k_slicebox(rep):
     merge(rep, kr)
 
 
+def _run_one(rep, n, f):
+    t0 = time.time()
+    second.reset()
+    f(rep)
+    rep.kernel_lemmas[-1]['wall_s'] = round(time.time() - t0, 2)
+    rep.kernel_lemmas[-1]['second_solver'] = {k.replace('second_solver_', ''): v for k, v in second.stats_for_report().items()}
+    for k, v in second.stats_for_report().items():
+        rep.extra[k] = rep.extra.get(k, 0) + v
+    for dis in second.DISAGREEMENTS:
+        rep.errors.append('second solver (cvc5) finds a model for a lemma query z3 answered unsat: %s' % dis['what'])
+        rep.extra['second_solver_disagreement_sample'] = dis
+
+
+_FIELDS = ('paths', 'queries', 'solver_s', 'canaries', 'canaries_fired')
+
+
 def run_into(rep, names):
+    """Each lemma runs in a forked child of its own and hands its part of the report back through a pipe: z3's search on
+    the nonlinear queries depends on the solver's internal state (term numbering, caches), so a lemma must not behave
+    differently because another lemma ran before it in the same process (seen: K-expand after K-whip went from 3 s to 90 s
+    and two `unknown`).  VERIF_LEMMA_FORK=0 runs them in-process."""
+    import os
+    import pickle
     for n in names:
         f = LEMMAS.get(n)
         if f is None:
             rep.kernel_lemmas.append({'lemma': n, 'status': 'not built'})
             continue
-        t0 = time.time()
-        f(rep)
-        rep.kernel_lemmas[-1]['wall_s'] = round(time.time() - t0, 2)
+        if os.environ.get('VERIF_LEMMA_FORK', '1') == '0':
+            _run_one(rep, n, f)
+            continue
+        r, w = os.pipe()
+        sys_stdout_flush()
+        pid = os.fork()
+        if pid == 0:
+            code = 0
+            try:
+                os.close(r)
+                sub = common.Report(rep.pid)
+                _run_one(sub, n, f)
+                out = {k: getattr(sub, k) for k in _FIELDS}
+                out.update(obl=sub.obl, extra=sub.extra, functions=sorted(sub.functions), violations=sub.violations, unreproduced=sub.unreproduced,
+                           errors=sub.errors, kernel_lemmas=sub.kernel_lemmas)
+                with os.fdopen(w, 'wb') as fh:
+                    pickle.dump(out, fh)
+            except BaseException:
+                import traceback
+                traceback.print_exc()
+                code = 1
+            finally:
+                sys_stdout_flush()
+                os._exit(code)
+        os.close(w)
+        with os.fdopen(r, 'rb') as fh:
+            data = fh.read()
+        os.waitpid(pid, 0)
+        if not data:
+            rep.errors.append('lemma %s: the child process ended without a result' % n)
+            rep.kernel_lemmas.append({'lemma': n, 'status': 'inconclusive', 'inconclusive': ['child process died']})
+            continue
+        out = pickle.loads(data)
+        for k in _FIELDS:
+            setattr(rep, k, getattr(rep, k) + out[k])
+        for k, v in out['obl'].items():
+            rep.obl[k] += v
+        for k, v in out['extra'].items():
+            if isinstance(v, (int, float)) and not isinstance(v, bool):
+                rep.extra[k] = rep.extra.get(k, 0) + v
+            elif isinstance(v, list):
+                rep.extra.setdefault(k, [])
+                rep.extra[k].extend(x for x in v if x not in rep.extra[k])
+            else:
+                rep.extra[k] = v
+        rep.functions.update(out['functions'])
+        rep.violations.extend(out['violations'])
+        rep.unreproduced.extend(out['unreproduced'])
+        rep.errors.extend(out['errors'])
+        rep.kernel_lemmas.extend(out['kernel_lemmas'])
+
+
+def sys_stdout_flush():
+    import sys
+    sys.stdout.flush()
+    sys.stderr.flush()
 
 
 if __name__ == '__main__':
